@@ -343,7 +343,7 @@ func cmdCheck(args []string) int {
 	covers, coversOK := 0, 0
 	coversUndecided := 0
 	var knownHit []string
-	var samples []interface{}
+	samples := []interface{}{}
 	backends := map[string]int{}
 	var solverMs int64
 	outDir := "/verif/replay/out"
